@@ -200,3 +200,54 @@ def ob_sql_gc_pass(k0: int, x0: int, k1: int, x1: int) -> str:
         if gone and not (expired or eph):
             return "pass at T=%d removed kind %d with expiration %r" % (T, kind, val)
     return "ok" if removed else "ok-nothing-collected"
+
+
+@obligation(funcs=["storage.db.QueryGarbageCollector.collect", "storage.db.DBStorage.add_event"],
+            params=range(4), timeout=(450, 1500),
+            bounds="SQL backend on the engine model, ONE collector instance (as the periodic task keeps it): event 0 stored, a pass at "
+                   "T-2, event 1 stored, a pass at T (PARAM); kind 1, expiration tags by selector (event 0: none, T-1, T+1, far "
+                   "future; event 1: all 9 values incl. malformed): after the second pass exactly the well-formed timestamps < T "
+                   "are gone, with their tag rows – whatever the first pass saw")
+def ob_sql_gc_two_passes(x0: int, x1: int) -> str:
+    """
+    pre: x0 in (0, 1, 3, 4) and 0 <= x1 < 9
+    post: _.startswith("ok")
+    """
+    logging.disable(logging.CRITICAL)
+    from harness import _sqlstore as S
+    from nostr_relay.storage import db as D
+    st = S.make_store()
+    exp = EXP + ("2031-01-01",)
+    gc = D.QueryGarbageCollector(st)
+    evs = []
+
+    def _pass(now):
+        D.time = lambda: now
+        conn_ctx = st.db.begin()
+        conn = S.drive(conn_ctx.__aenter__())
+        S.drive(gc.collect(conn))
+        S.drive(conn_ctx.__aexit__(None, None, None))
+
+    for (i, x) in ((0, x0), (1, x1)):
+        val = pick(exp, x)
+        tags = [["e", "x"]] + ([["expiration", val]] if val is not None else [])
+        ev = S.evj(i, i == 1, 1, 10 + i, tags)
+        D.time = lambda: T - 3
+        S.drive(st.add_event(dict(ev)))
+        evs.append((ev, val))
+        _pass(T - 2 if i == 0 else T)
+    after = [r["id"] for r in S.rows(st)]
+    err = S.tags_coherent(st)
+    if err:
+        return err
+    removed = 0
+    for (ev, val) in evs:
+        expired = val is not None and val.isdigit() and int(val) < T
+        gone = ev["id"] not in after
+        removed += gone
+        if expired and not gone:
+            return "expiration %r survived the second pass at T=%d (first pass at T-2 saw %r)" % (val, T, evs[0][1])
+        if gone and not expired:
+            return "the passes at T-2 and T=%d removed an event with expiration %r" % (T, val)
+    return "ok" if removed else "ok-nothing-collected"
+
